@@ -87,6 +87,14 @@ fn main() {
                 }
                 "C17" => c17::search(seed, full),
                 "C02" | "C03" => c0203::search(seed, full, &rt),
+                "C18" => {
+                    // the labels the server places in the tree vs the labels the proofs verify to: tampered histories + end-to-end answers
+                    let a = c0607::search("C07", seed, full, &rt);
+                    let b = c0203::search(seed, full, &rt);
+                    let mut failures = a.failures;
+                    failures.extend(b.failures);
+                    SearchResult { evaluations: a.evaluations + b.evaluations, failures, summary: format!("{}; {}", a.summary, b.summary) }
+                }
                 "C04" => c04::search(seed, full, &rt),
                 "C05" => c05::search(seed, full, &rt),
                 "C06" => c0607::search(pid, seed, full, &rt),
